@@ -279,7 +279,8 @@ impl Node {
         let t = Instant::now();
         loop {
             let info = self.shared.tx_pool_controller().get_tx_pool_info().map_err(|e| e.to_string())?;
-            if info.tip_hash == self.tip().hash() {
+            // ... and the reorg task and the block assembler task have finished what was handed to them
+            if info.tip_hash == self.tip().hash() && ckb_tx_pool::verif::background_idle() {
                 return Ok(());
             }
             if t.elapsed() > Duration::from_secs(20) {
